@@ -32,6 +32,7 @@ inductive Step where
   | wrongSys                   -- co.syscall(0, sleep, Executing)
   | exit                       -- co.running()
   | cancel                     -- suspender.cancel()
+  | req (j : Nat)              -- Scheduler::try_cancel_coroutine(id of coroutine j), from inside the body
   | panic (k : Nat)            -- 0: panic!("boom") (&'static str), k>0: panic!("boom{k}") (String)
   | ret (r : Nat)
 deriving Repr, DecidableEq
@@ -92,6 +93,9 @@ structure Th where
   ts : List Nat := []
   cn : List Bool := []
   now : Nat
+  /-- cancel requests for other coroutines issued by bodies during their slices (the process-wide
+  `CANCEL_COROUTINES` insertions the scheduler will see at its next pop) -/
+  req : List Nat := []
 deriving Repr, DecidableEq
 
 /-- how a slice of body execution ends -/
@@ -106,7 +110,11 @@ def okStr : Option Co → String
   | none => "err"
 
 /-- message kept by `catch!`: `&'static str` and `String` payloads -/
-def panicMsg (k : Nat) : String := if k = 0 then "boom" else s!"boom{k}"
+def panicMsg (k : Nat) : String :=
+  if k = 0 then "boom"
+  else if k < 1000 then s!"boom{k}"
+  -- long formatted messages with multi-byte characters: whatever their length they are kept whole
+  else s!"boom{k}-" ++ String.ofList (List.replicate (k - 1000) 'é')
 
 def Co.withLog (c : Co) (l : String) : Co := { c with log := c.log ++ [l] }
 
@@ -126,6 +134,7 @@ def runBody (th : Th) (c : Co) : List Step → Th × Co × End
   | .exit :: rest =>
     runBody th (((c.toRunning th.now).getD c).withLog ("X:" ++ okStr (c.toRunning th.now))) rest
   | .cancel :: rest => ({ th with cn := true :: th.cn }, { c with prog := rest, inCancel := true }, .yielded 0)
+  | .req j :: rest => runBody { th with req := th.req ++ [j] } c rest
   | .panic k :: _ => (th, { c with prog := [], done := true }, .panicked (panicMsg k))
   | .ret r :: _ => (th, { c with prog := [], done := true }, .returned r)
 
